@@ -346,14 +346,12 @@ func (name *Name) BlockSize() int {
 
 // WriteTo serializes the IDBlock to w.
 func (name *Name) WriteTo(w io.Writer) (int64, error) {
+	// The block size (label length + 3) is written as a single byte.
 	blockSize := name.BlockSize()
-	if blockSize > 256 {
+	if blockSize > 255 {
 		return 0, ErrNameTooLong
 	}
 	idLen := len(name.Label)
-	if idLen > 256-3 {
-		return 0, ErrNameTooLong
-	}
 	written := int64(0)
 	n, err := w.Write([]byte{byte(blockSize), byte(name.Type), byte(idLen)})
 	written += int64(n)
